@@ -2,3 +2,7 @@
 import WS.Base.Bytes
 import WS.Gen.Tables
 import WS.Props.C06
+import WS.Props.C13
+import WS.Props.C14
+import WS.Props.C15
+import WS.Props.C16
